@@ -1,0 +1,46 @@
+//go:build verif
+
+// Verification hooks (build tag verif). Add-only, read-only peeks into the engine.
+
+package bft
+
+import (
+	"github.com/vechain/thor/v2/thor"
+)
+
+// VerifTally peeks the cached bft state of a block without computing or touching LRU order.
+func (engine *Engine) VerifTally(id thor.Bytes32) (quality uint32, justified, committed, ok bool) {
+	v, ok := engine.caches.state.Peek(id)
+	if !ok {
+		return 0, false, false, false
+	}
+	st := v.(*bftState)
+	return st.Quality, st.Justified, st.Committed, true
+}
+
+// VerifCast is one remembered own vote.
+type VerifCast struct {
+	Checkpoint thor.Bytes32
+	Quality    uint32
+}
+
+// VerifCasts returns the engine's in-memory casts (nil when not initialised yet).
+func (engine *Engine) VerifCasts() []VerifCast {
+	if engine.casts == nil {
+		return nil
+	}
+	out := make([]VerifCast, 0, len(engine.casts))
+	for cp, q := range engine.casts {
+		out = append(out, VerifCast{cp, q})
+	}
+	return out
+}
+
+// VerifStoredQuality reads the persisted quality of a store-point block.
+func (engine *Engine) VerifStoredQuality(id thor.Bytes32) (uint32, bool) {
+	q, err := loadQuality(engine.data, id)
+	if err != nil {
+		return 0, false
+	}
+	return q, true
+}
